@@ -14,7 +14,8 @@ user's own) plus 1-3 operations, each with at most one injected fault:
     faults: unknown reference; package absent at R; syntax error at R; a user branch that already has the name of Griffe's
     temporary branch; a user worktree whose directory is named like Griffe's temporary checkout (normalize(ref)) or branch; the
     repository being a clone in which the ref exists only as origin/<name>; an extension that raises Exception / KeyboardInterrupt at its k-th hook call (k over all hook calls
-    counted in a fault-free dry run of the same operation); non-zero exit / OSError injected into the i-th `subprocess.run`
+    counted in a fault-free dry run of the same operation); a slow git step (completes, then TimeoutExpired — only where Griffe
+    passes a timeout); non-zero exit / OSError injected into the i-th `subprocess.run`
     of `_griffe.git` that precedes a worktree body (rev-parse, worktree add, tag -l).
 
 Oracle, after every operation (dry runs included), whatever it returned or raised:
@@ -73,7 +74,9 @@ ASSUMPTIONS = [
     "faults are injected synchronously: at extension hook calls and at `subprocess.run` calls of _griffe.git that precede a worktree body; "
     "failures of Griffe's own clean-up commands (worktree remove / prune / branch -D) and asynchronous signals are not injected — no "
     "implementation could restore the repository if its clean-up commands themselves are made to fail",
-    "an injected sub-process failure means the command is not executed",
+    "an injected sub-process failure (non-zero exit, OSError) means the command is not executed; an injected timeout means the command ran to "
+    "completion and subprocess.run then raised TimeoutExpired — injected only where the caller passed a timeout, since it cannot happen otherwise "
+    "(no real sleeping: a genuinely slow hook would cost more than the quick tier's whole budget)",
     "every operation runs with byte-code writing enabled as in a user's interpreter (sys.dont_write_bytecode=False during the call; the runner "
     "itself sets PYTHONDONTWRITEBYTECODE=1), so anything Griffe imports leaves __pycache__ behind — in the temporary checkout or, wrongly, in the user's tree; `check` with force_inspection is only generated together with base_ref, because importing the "
     "*current* working tree writes __pycache__ there by CPython's own doing",
@@ -202,7 +205,16 @@ class _SubprocessProxy:
         if not cleanup:
             idx = self.eligible
             self.eligible += 1
-            if self._plan is not None and self._plan["i"] == idx and not self.injected:
+            if self._plan is not None and self._plan["i"] == idx and not self.injected and self._plan["type"] == "sub_timeout":
+                # a slow step (big checkout, smudge filter, hook): git does all its work, then the caller's own timeout fires.
+                # subprocess.run can only raise TimeoutExpired when a timeout was passed — without one nothing is injected.
+                if kw.get("timeout") is not None:
+                    self.injected = True
+                    self.trace[-1] = label + "!TIMEOUT-AFTER-COMPLETION"
+                    done = _real_subprocess.run(args, **{k: v for k, v in kw.items() if k != "timeout"})
+                    raise _real_subprocess.TimeoutExpired(argv, kw["timeout"], output=done.stdout, stderr=done.stderr)
+                self.trace[-1] = label + "(no-timeout-set)"
+            elif self._plan is not None and self._plan["i"] == idx and not self.injected:
                 self.injected = True
                 self.trace[-1] = label + "!FAULT"
                 if self._plan["type"] == "sub_oserror":
